@@ -366,6 +366,73 @@ func TestEncryption(t *testing.T) {
 		}
 	}
 
+	// ---- (2b) large values: cuts at block-like boundaries (powers of two, multiples of 4 KiB and of 64 KiB plus the sizes of a
+	// nonce and a tag), at random lengths, and byte changes at random positions ----
+	for _, n := range []int{70000, 200000} {
+		dir, _ := os.MkdirTemp("", "verif-tamper-")
+		conn, err := fscache.Open("verif", fscache.WithBaseDir(dir), fscache.WithEncryption(key32))
+		if err != nil {
+			t.Fatal(err)
+		}
+		val := valueN('L', n)
+		key := "http://a.test/tamper-large"
+		if err := conn.Set(key, val); err != nil {
+			t.Fatal(err)
+		}
+		var path string
+		var orig []byte
+		for p, f := range rawFiles(dir) {
+			path, orig = p, f
+		}
+		cuts := map[int]bool{}
+		for k := 1; k < len(orig); k *= 2 {
+			for d := -1; d <= 1; d++ {
+				cuts[k+d] = true
+			}
+		}
+		for _, unit := range []int{4096, 65536} {
+			for _, extra := range []int{0, 12, 16, 28} {
+				for m := 1; m*(unit+extra) < len(orig)+unit; m++ {
+					for d := -1; d <= 1; d++ {
+						cuts[m*(unit+extra)+d] = true
+						cuts[m*unit+extra+d] = true
+					}
+				}
+			}
+		}
+		g := newG(uint64(n), 77)
+		for i := 0; i < 300; i++ {
+			cuts[g.intn(len(orig))] = true
+		}
+		leaks, tried := 0, 0
+		try := func(mut []byte, what string) {
+			tried++
+			_ = os.WriteFile(path, mut, 0o644)
+			got, err := conn.Get(key)
+			if err == nil {
+				leaks++
+				add("TAMPER len=%d options=large %s returned %d bytes without error BAD", n, what, len(got))
+			}
+		}
+		for k := range cuts {
+			if k >= 0 && k < len(orig) {
+				try(orig[:k], fmt.Sprintf("truncate to %d", k))
+			}
+		}
+		for i := 0; i < 300; i++ {
+			m := append([]byte(nil), orig...)
+			pos := g.intn(len(orig))
+			m[pos] ^= 0x01
+			try(m, fmt.Sprintf("flip byte %d", pos))
+		}
+		try(append(append([]byte(nil), orig...), 0), "extend by one zero byte")
+		_ = os.WriteFile(path, orig, 0o644)
+		back, gerr := conn.Get(key)
+		add("TAMPER len=%d options=large modifications=%d accepted=%d intact_value_read_back=%v %s", n, tried, leaks, gerr == nil && bytes.Equal(back, val),
+			verdict(leaks == 0 && gerr == nil && bytes.Equal(back, val)))
+		os.RemoveAll(dir)
+	}
+
 	// ---- (3) through the transport: a tampered entry is a miss, never served ----
 	for trial := 0; trial < 4; trial++ {
 		dir, _ := os.MkdirTemp("", "verif-enc-rt-")
